@@ -253,6 +253,17 @@ def run_decoder(facts, seq):
                 if isinstance(buf, MutList):
                     buf.append(("badpayload", i) if s == "t3bad" else ("payload", i))
                 return ("Ok", ("tuple", []))
+        if kind == "method" and name == "map_err" and isinstance(recv, tuple) and recv[0] == "Err" and node["a"] \
+                and node["a"][0].get("k") == "path" and node["a"][0]["p"].split("::")[-1] in ("into", "from"):
+            conv = [g for g in run.facts.fns(F) if g.impl_self == "DecodeError" and g.impl_trait == "From" and g.name == "from"]
+            if conv:
+                sub = run.interp({"e": recv[1]})
+                try:
+                    return ("Err", sub.block(conv[0].node["body"]))
+                except Return as r:
+                    return ("Err", r.v)
+                except Unknown:
+                    return ("Err", OPAQUE)
         if kind == "macro" and name == "vec" and "repeat" in node:
             n = it.eval(node["repeat"][1])
             if isinstance(n, Wire):
